@@ -13,8 +13,8 @@ import (
 	"github.com/formancehq/ledger/internal/bus"
 	"github.com/formancehq/ledger/internal/engine/command"
 	"github.com/formancehq/ledger/internal/machine"
-	"github.com/formancehq/ledger/internal/storage"
 	"github.com/formancehq/ledger/internal/machine/vm"
+	"github.com/formancehq/ledger/internal/storage"
 	ng "github.com/formancehq/ledger/internal/verif/numgen"
 	vc "github.com/formancehq/ledger/internal/verif/vcommon"
 	"github.com/formancehq/stack/libs/go-libs/metadata"
